@@ -134,6 +134,13 @@ def mutations(design, rng, limit_per_class):
             _, bp = refsem.iface(design, inst["of"])
             bname = bp[port]
             leaves = refsem.bundle_leaves(design, bname)
+            if leaves:
+                # an extra connection to the FLATTENED name of a member, next to the connection to the bundle port itself
+                pth, lw = leaves[0]
+                fname = refsem.flatname(port, *pth)
+                sp0, bp0 = refsem.iface(design, inst["of"])
+                if fname not in sp0 and fname not in bp0:
+                    add("extra-connection-flattened-name", site, mutated(["sig", "zzfl"], extra_sigs=[["zzfl", lw]], add_port=fname), "extra-connection")
             if e[0] == "anon":
                 # width mismatch inside an anonymous-bundle member, missing member, extra member
                 k = sorted(e[1])[0]
